@@ -215,6 +215,7 @@ var props = map[string]*Prop{
 		Assumptions: []string{"a file with a type error may be reported either with an error or with whatever functions could be fingerprinted (the statement only requires that it is not silently dropped)", "files that share a package with an unanalysable file are allowed to fail too"},
 		Bounds:      map[string]string{"quick": "subsets <=2 of 13 features + full set (93 trees)", "thorough": "subsets <=3 + full set (379 trees)"},
 		Units: []Unit{
+			{Name: "blank-function", Pkg: "internal/cli", Test: "TestVerifC16Blank", Shards: sh(1, 1), Builds: []Build{{Pkg: "cmd/sfw", Out: "sfw"}}},
 			{Name: "tree-features", Pkg: "internal/cli", Test: "TestVerifC16", Shards: sh(16, 16), TimeoutS: sh(1800, 3600), DeadlineS: sh(900, 3000), Builds: []Build{{Pkg: "cmd/sfw", Out: "sfw"}}},
 		},
 	},
